@@ -628,11 +628,13 @@ def judge_runs(ctx: Ctx, results: list[dict]) -> None:
     nrep = nbad_rep = nexp = nbad_exp = 0
     for ri, r in enumerate(results):
         if "crash" in r:
-            ctx.dist("program_runs", "tool-crashed (not judged)")
+            ctx.dist("program_runs", "tool crashed / worker died / timed out (not judged)")
             continue
         if "base" not in r:
+            ctx.dist("program_runs", "no base run (not judged)")
             continue
         base = r["base"]
+        ctx.dist("program_runs", "judged")
         ctx.dist("program_kind", "generated-text" if r["name"].startswith("gen-text") else "corpus check-*.test")
         if base["unsupported"]:
             ctx.dist("program_runs", "unsupported option (not judged)")
